@@ -1341,7 +1341,7 @@ def s_abs(a):
 def s_pow(a, b):
     if not _anysym(a, b):
         return _conc(np.power, a, b)
-    if not isinstance(b, Sym) and float(b) == int(b) and 0 <= int(b) <= 4:
+    if not isinstance(b, Sym) and np.isfinite(float(b)) and float(b) == int(b) and 0 <= int(b) <= 4:
         n = int(b)
         if n == 0:
             return 1 if _bothint(a, b) else np.float64(1.0)
@@ -1351,7 +1351,47 @@ def s_pow(a, b):
         return r
     if not isinstance(b, Sym) and float(b) == 0.5:
         return s_sqrt(a)
-    raise Unencodable("power with symbolic / large exponent")
+    return _pow_general(a, b)
+
+
+_POW = z3.Function("pow", z3.RealSort(), z3.RealSort(), z3.RealSort())
+
+
+def _pow_general(a, b):
+    """a ** b for a non-negative base and an arbitrary (possibly infinite)
+    exponent, as numpy computes it over the extended reals.  The finite,
+    positive-base case is an uninterpreted function constrained by the sign /
+    monotonicity facts of real exponentiation; negative bases are refused."""
+    if not isinstance(b, Sym):
+        b = np.float64(b)
+    if not isinstance(a, Sym):
+        a = np.float64(a)
+    one = np.float64(1.0)
+    if s_eq(b, 0) or s_eq(a, 1):
+        return one
+    if s_isnan(a) or s_isnan(b):
+        return np.float64(np.nan)
+    if not s_le(0, a):
+        raise Unencodable("power with a negative base")
+    a_inf = bool(s_eq(a, np.inf))
+    if bool(s_eq(b, np.inf)):
+        return np.float64(0.0) if s_lt(a, 1) else np.float64(np.inf)
+    if bool(s_eq(b, -np.inf)):
+        return np.float64(np.inf) if s_lt(a, 1) else np.float64(0.0)
+    pos = bool(s_lt(0, b))
+    if a_inf:
+        return np.float64(np.inf) if pos else np.float64(0.0)
+    if s_eq(a, 0):
+        return np.float64(0.0) if pos else np.float64(np.inf)
+    la = lift(a)
+    lb = lift(b)
+    t = _POW(la.r, lb.r)
+    _axiom_once(t, z3.And(
+        t > 0,
+        z3.Implies(z3.And(la.r < 1, lb.r > 0), t < 1), z3.Implies(z3.And(la.r > 1, lb.r > 0), t > 1),
+        z3.Implies(z3.And(la.r < 1, lb.r < 0), t > 1), z3.Implies(z3.And(la.r > 1, lb.r < 0), t < 1),
+        z3.Implies(lb.r == 1, t == la.r)))
+    return mkfloat(t, False, False, False)
 
 
 # comparisons --------------------------------------------------------------
